@@ -144,6 +144,10 @@ Proof.
   - (* RdC *) genP Hstep.
   - (* RdL *) genP Hstep.
   - (* G1 *) genP Hstep.
+  - (* Sn1 *) genP Hstep.
+  - (* Sn2 *) genP Hstep.
+  - (* Sn3 *) genP Hstep.
+  - (* Sn4 *) genP Hstep.
 Qed.
 
 End Price.
@@ -157,7 +161,7 @@ Proof. unfold next_iter. destruct (ml_rem ml =? 0); [apply start_finish_vplain|s
 
 Lemma start_vplain P price c : vgo P (start price c) = 0 /\ vpq P (start price c) = 0.
 Proof.
-  destruct c as [o|qty taker|u| | | | |]; cbn [start]; try (split; reflexivity).
+  destruct c as [o|qty taker|u| | | | | |]; cbn [start]; try (split; reflexivity).
   - apply next_iter_vplain.
   - destruct u as [k np|k nq|k np nq|k|k p q sd]; try (split; reflexivity).
     + destruct (np =? price); split; reflexivity.
@@ -259,6 +263,10 @@ Proof.
   - (* RdC *) genV Hstep.
   - (* RdL *) genV Hstep.
   - (* G1 *) genV Hstep.
+  - (* Sn1 *) genV Hstep.
+  - (* Sn2 *) genV Hstep.
+  - (* Sn3 *) genV Hstep.
+  - (* Sn4 *) genV Hstep.
 Qed.
 
 End Value.
@@ -279,7 +287,7 @@ Qed.
 Lemma start_price P price c : call_price P c -> pc_price P (start price c).
 Proof.
   intros Hc. destruct (start_asd price c) as (Ha & _).
-  destruct c as [o|qty taker|u| | | | |]; cbn [start] in *; try (split; [constructor|exact I]).
+  destruct c as [o|qty taker|u| | | | | |]; cbn [start] in *; try (split; [constructor|exact I]).
   - split; [constructor|exact Hc].
   - destruct (next_iter_asd (mkMloc taker qty (result_new taker qty) [])) as (A & B).
     eapply pc_price_plain; eauto. cbn [ml_aside]. constructor.
